@@ -131,6 +131,20 @@ func withField(m []byte, tag, val string) []byte {
 	return frameFields(inner)
 }
 
+// withDecoyAfterMsgType inserts one more field right after MsgType (i.e. before MsgSeqNum), reframed.
+func withDecoyAfterMsgType(m []byte, field string) []byte {
+	fs := tokens(m)
+	i := strings.IndexByte(field, '=')
+	var inner []fld
+	for _, f := range fs[2 : len(fs)-1] {
+		inner = append(inner, f)
+		if f.T == "35" {
+			inner = append(inner, fld{field[:i], field[i+1:]})
+		}
+	}
+	return frameFields(inner)
+}
+
 func tokens(m []byte) []fld {
 	var out []fld
 	if len(m) > 0 && m[len(m)-1] == 1 {
@@ -199,6 +213,7 @@ type wcfg struct {
 	MS           session.MessageStorage
 	User, Pass   string
 	MinimalTags  bool // Opts.Tags carries only MsgType and MsgSeqNum (the two the library insists on)
+	SeqReset     bool // the optional SequenceReset builder is configured
 }
 
 type world struct {
@@ -222,12 +237,17 @@ type world struct {
 	ctxDone     bool
 	lastLogonCB *session.LogonSettings
 	onOut       func(m []byte) // called by the writer-loop stand-in for every message it takes off Outgoing()
+	hold        bool           // the writer-loop stand-in stops taking messages (a peer that does not read) ...
+	release     chan struct{}  // ... until something arrives here
 }
 
 func optsFor(c wcfg) *session.Opts {
 	o := opts(c.Allowed...)
 	if c.MinimalTags {
 		o.Tags = &messages.Tags{MsgType: 35, MsgSeqNum: 34}
+	}
+	if c.SeqReset {
+		o.MessageBuilders.SequenceResetBuilder = fixgen.SequenceReset{}.New()
 	}
 	return o
 }
@@ -288,8 +308,12 @@ func newWorld(c wcfg) *world {
 	w.h.OnStopped(func() bool { w.stopped++; return true })
 	w.h.OnDisconnect(func() bool { w.hdisc++; return true })
 	// consumer of the outbound channel (stands for the connection's writer loop)
+	w.release = make(chan struct{}, 1)
 	go func() {
 		for {
+			if w.hold {
+				<-w.release
+			}
 			m, ok := <-w.h.Outgoing()
 			if !ok {
 				return
